@@ -142,6 +142,17 @@ Proof.
     destruct H as [k ->]. rewrite Nat.even_mul in E. cbn in E. discriminate.
 Qed.
 
+(* ------------------------------------------------------------------ conditionals in canonical orientation
+   rust2coq translates an `if` WITH an else arm whose condition is `!c`, or `!=` / `>=` / `>` on usize / isize / bool, as the
+   `if` on `c` resp. `==` / `<` / `<=` with the arms exchanged (so that negating the condition and swapping the arms in the
+   source gives the same Gallina); where the hand-written model has the other orientation these lemmas bridge it. *)
+Lemma if_leb_flip {Y} (a b : nat) (x y : Y) : (if a <=? b then x else y) = (if b <? a then y else x).
+Proof. rewrite Nat.leb_antisym. destruct (b <? a); reflexivity. Qed.
+Lemma if_ltb_flip {Y} (a b : nat) (x y : Y) : (if a <? b then x else y) = (if b <=? a then y else x).
+Proof. rewrite Nat.ltb_antisym. destruct (b <=? a); reflexivity. Qed.
+Lemma if_negb_flip {Y} (c : bool) (x y : Y) : (if negb c then x else y) = (if c then y else x).
+Proof. destruct c; reflexivity. Qed.
+
 (* ------------------------------------------------------------------ simulation between loops over different state types *)
 Definition res_rel {X Y} (R : X -> Y -> Prop) (a : res X) (b : res Y) : Prop :=
   match a, b with Ok x, Ok y => R x y | Panic k, Panic k' => k = k' | _, _ => False end.
@@ -232,9 +243,12 @@ Ltac src_swap :=
   | |- bind ?e1 _ = bind ?e2 _ =>
       etransitivity; [ apply (bind_swap e1 e2); apply rd_idx_only | ]
   end.
-Ltac src_eq := repeat first [ progress src_rew | progress cbn [fst snd] | src_step ].
-(* the same, also re-ordering index-checked reads where the two sides perform them in a different order *)
-Ltac src_eq_swap := repeat first [ progress src_rew | progress cbn [fst snd] | src_step | src_swap ].
+(* structural equality of two monadic terms; where the two sides perform two index-checked reads in a different order (the
+   source was rewritten `let t = a[i] * b[j]; x[k] -= t` <-> `x[k] = x[k] - a[i] * b[j]`, or the model reads in another order)
+   the reads are commuted (bind_swap: both can only fail with Panic Index).  src_swap fires only when nothing else applies and
+   only when the second step of the left side IS the first step of the right side, so every swap is followed by progress. *)
+Ltac src_eq := repeat first [ progress src_rew | progress cbn [fst snd] | src_step | src_swap ].
+Ltac src_eq_swap := src_eq.
 
 (* ------------------------------------------------------------------ loops over lists: push / fold / tabulate / update in place *)
 Section ListLoops.
